@@ -236,18 +236,11 @@ class ConstEval:
                 return not v
             raise NotConst('unaryop')
         if isinstance(node, ast.BoolOp):
-            vals = [ev(v) for v in node.values]
-            if isinstance(node.op, ast.And):
-                r = True
-                for v in vals:
-                    r = v
-                    if not v:
-                        break
-                return r
-            r = False
-            for v in vals:
-                r = v
-                if v:
+            is_and = isinstance(node.op, ast.And)
+            r = is_and
+            for vn in node.values:       # short-circuit, like Python
+                r = ev(vn)
+                if bool(r) != is_and:
                     break
             return r
         if isinstance(node, ast.Compare):
